@@ -188,16 +188,154 @@ func (w *vWorld) runParStep(nextId *int64, ops []vReq, sched []int) {
 }
 
 type vScenarioC struct {
-	Name     string        `json:"name"`
-	Cfg      vWorldCfg     `json:"cfg"`
-	Steps    []vStepC      `json:"steps"`
-	Complete bool          `json:"complete"`
+	Name     string    `json:"name"`
+	Cfg      vWorldCfg `json:"cfg"`
+	Steps    []vStepC  `json:"steps"`
+	Complete bool      `json:"complete"`
 }
 
 type vStepC struct {
 	vReq
-	Ops   []vReq `json:"ops"`
-	Sched []int  `json:"sched"`
+	Ops    []vReq          `json:"ops"`
+	Sched  []int           `json:"sched"`
+	Actors map[string]vReq `json:"actors"`
+	Script []string        `json:"script"`
+}
+
+// runScript executes a TLC-generated schedule of LockEngineFine: every script element names the actor whose
+// next critical section runs ("c<i>" client, "T"/"E" sweepers, "clock" = advance the clock and start the
+// sweepers of that second).  One element releases the actor until its next section-boundary gate (reply,
+// sweep.*.collected, wake.iter) or its end; an element naming a finished or unknown actor is skipped, and what is
+// left at the end runs to completion - the monitors judge whatever happened.
+func (w *vWorld) runScript(nextId *int64, actorsReq map[string]vReq, script []string) {
+	s := &vSched{w: w, signal: make(chan *vActor)}
+	named := map[string]*vActor{}
+	var all []*vActor
+	w.tr.Emit(map[string]interface{}{"e": "par", "n": len(actorsReq), "t": w.now, "script": len(script)})
+	w.gate = func(w *vWorld, ev map[string]interface{}) {
+		w.tr.Emit(ev)
+		s.gate("reply")
+	}
+	VerifPointFunc = func(name string, a interface{}, b interface{}) {
+		switch name {
+		case "sweep.timeout.collected", "sweep.expried.collected", "wake.iter":
+			s.gate(name)
+		}
+	}
+	stuck := ""
+	release := func(a *vActor) {
+		if a == nil || a.state == 3 || stuck != "" {
+			return
+		}
+		s.cur = a
+		if a.state == 0 {
+			a.state = 1
+			go func(a *vActor) {
+				a.body()
+				a.state = 3
+				s.signal <- a
+			}(a)
+		} else {
+			a.state = 1
+			a.resume <- struct{}{}
+		}
+		select {
+		case <-s.signal:
+		case <-time.After(20 * time.Second):
+			stuck = fmt.Sprintf("actor %d did not reach a gate or finish within 20s (last gate %q)", a.id, a.where)
+		}
+		s.cur = nil
+	}
+	finish := func(a *vActor) {
+		for a != nil && a.state != 3 && stuck == "" {
+			release(a)
+		}
+	}
+	ticked := false
+	for _, el := range script {
+		switch el {
+		case "clock":
+			finish(named["T"])
+			finish(named["E"])
+			ticked = true
+			w.now++
+			for _, db := range w.slock.dbs {
+				if db != nil {
+					db.currentTime = w.now
+				}
+			}
+			at := &vActor{id: len(all), resume: make(chan struct{})}
+			at.body = func() {
+				for _, db := range w.slock.dbs {
+					if db == nil {
+						continue
+					}
+					q := w.sweepQueues(db)
+					ct := db.checkTimeoutTime
+					db.checkTimeoutTime = w.now + 1
+					for ; ct <= w.now; ct++ {
+						for i := uint16(0); i < db.managerMaxGlocks; i++ {
+							db.checkTimeTimeOut(ct, w.now, i, q.to[i])
+						}
+					}
+				}
+			}
+			ae := &vActor{id: len(all) + 1, resume: make(chan struct{})}
+			ae.body = func() {
+				for _, db := range w.slock.dbs {
+					if db == nil {
+						continue
+					}
+					q := w.sweepQueues(db)
+					ce := db.checkExpriedTime
+					db.checkExpriedTime = w.now + 1
+					for ; ce <= w.now; ce++ {
+						for i := uint16(0); i < db.managerMaxGlocks; i++ {
+							db.checkTimeExpried(ce, w.now, i, q.ex[i])
+						}
+					}
+				}
+			}
+			named["T"], named["E"] = at, ae
+			all = append(all, at, ae)
+		default:
+			a := named[el]
+			if a == nil {
+				r, ok := actorsReq[el]
+				if !ok {
+					continue
+				}
+				if r.Op == "lock" && r.NoDupWait && w.hasLiveWaiter(&r) {
+					continue
+				}
+				id := *nextId
+				*nextId++
+				rr := r
+				w.tr.Emit(w.reqEvent(id, &rr))
+				a = &vActor{id: len(all), resume: make(chan struct{})}
+				a.body = func() {
+					w.Issue(id, &rr)
+					w.tr.Emit(map[string]interface{}{"e": "ret", "id": id, "t": w.sec(), "ms": w.ms()})
+				}
+				named[el] = a
+				all = append(all, a)
+			}
+			release(a)
+		}
+	}
+	for _, a := range all {
+		finish(a)
+	}
+	VerifPointFunc = nil
+	w.gate = nil
+	if stuck != "" {
+		w.tr.Emit(map[string]interface{}{"e": "stuck", "why": stuck, "t": w.now})
+		panic("engine C stuck: " + stuck)
+	}
+	if ticked {
+		w.tr.Emit(map[string]interface{}{"e": "tock", "t": w.now})
+	}
+	w.tr.Emit(map[string]interface{}{"e": "parend", "t": w.now})
 }
 
 func TestVerifC(t *testing.T) {
@@ -221,6 +359,9 @@ func TestVerifC(t *testing.T) {
 			st := &sc.Steps[j]
 			if st.Op == "par" {
 				w.runParStep(&nextId, st.Ops, st.Sched)
+				w.tr.Emit(w.Snapshot())
+			} else if st.Op == "fine" {
+				w.runScript(&nextId, st.Actors, st.Script)
 				w.tr.Emit(w.Snapshot())
 			} else {
 				w.runSeqStep(&nextId, &st.vReq, true)
